@@ -123,6 +123,19 @@ def check_property(prop, tier, seed):
     vac = [(r["function"], v) for r in p_results for v in r.get("vacuity_failures", [])]
     for r in undecided:
         lines.append(f"UNDECIDED property={prop} function={r['function']} reason={r.get('reason','solver')}"[:400])
+    # thorough tier: the executor's self-test (toy functions with known verdicts; a wrong verdict is a checker failure)
+    selftest = None
+    if tier == "thorough":
+        import subprocess
+
+        try:
+            pr = subprocess.run([sys.executable, "-m", "tools.engine_selftest"], cwd=HERE, capture_output=True, text=True, timeout=600)
+            st_lines = [l for l in pr.stdout.splitlines() if l.startswith(("ok ", "BAD"))]
+            selftest = {"cases": len(st_lines), "as_expected": sum(1 for l in st_lines if l.startswith("ok ")), "exit": pr.returncode}
+            if pr.returncode != 0 or not st_lines:
+                crashed.append("engine self-test: " + "; ".join(l for l in st_lines if l.startswith("BAD"))[:300] + (pr.stderr[-300:] if not st_lines else ""))
+        except Exception as e:  # noqa: BLE001
+            crashed.append(f"engine self-test could not run: {e!r}"[:300])
     # lemmas
     lemma_results = []
     if spec.get("lemmas"):
@@ -224,6 +237,7 @@ def check_property(prop, tier, seed):
         + ("; every instance re-decided by /usr/bin/z3 4.8.12 via SMT-LIB export (disagreement = undecided)" if tier == "thorough" else "; second back end (z3 4.8.12 CLI) only in the thorough tier"),
         "cross_checked": sum(1 for r in p_results for o in r["obligations"] if o.get("cross") in ("sat", "unsat")),
         "explanation": spec["explanation"],
+        "engine_selftest": selftest if selftest is not None else "thorough tier only (tools/engine_selftest.py)",
         "bounded": None,
     }
     if b:
